@@ -98,7 +98,8 @@ Print Assumptions C02_metric_lower_le_higher.
 
 Example C02_example :
   ssorted [1#1; 2#1; 4#1; 8#1] /\
-  threshold_at_fnr succ64 pred64 (mk_scores [1#1; 2#1; 4#1; 8#1] [3#1] 0 0 Pos Pos false) (3#8) Linear = Ret (3#1).
+  match threshold_at_fnr succ64 pred64 (mk_scores [1#1; 2#1; 4#1; 8#1] [3#1] 0 0 Pos Pos false) (3#8) Linear with
+  | Ret t => Qeqb t (3#1) | Raise => false end = true.
 Proof.
-  split; [repeat (constructor; try reflexivity)|vm_compute; reflexivity].
+  split; [unfold ssorted; repeat first [apply SSorted_nil | apply SSorted_cons | apply Forall_nil | apply Forall_cons | reflexivity]|vm_compute; reflexivity].
 Qed.
